@@ -2,6 +2,7 @@
 TLC: MC_Montgomery (all 256 x 256 (k,u): RFC ladder = dalek ladder = Edwards multiple; map with exceptional points; Elligator; DH).
 Conformance: x25519, Montgomery ops, typed DH, conversions, ed25519 -> x25519 key conversion."""
 import os
+import json
 from vlib import *
 import pyed
 
@@ -202,6 +203,24 @@ def run(ck):
         run_driver(bins[cid], cid, spz if f else sp, tp)
         traces.append((cid, tp))
     ck.validate(traces)
+    # binding demonstration (non-vacuity of the session conformance): one recorded session with the `contributory` flag of its
+    # last Diffie-Hellman flipped must be rejected by the trace specification
+    lines = open(traces[0][1]).readlines()
+    idx = [i for i, l in enumerate(lines) if '"op":"reset"' in l] + [len(lines)]
+    segs = [(a, b) for a, b in zip(idx, idx[1:]) if any('"xs.dh"' in l and '"live":true' in l for l in lines[a:b])]
+    if segs and ck.round == 0:
+        a, b = segs[-1]
+        demo = [lines[0]] + lines[a:b]
+        k = max(i for i, l in enumerate(demo) if '"xs.dh"' in l and '"live":true' in l)
+        e = json.loads(demo[k])
+        e["obs"]["contributory"] = not e["obs"]["contributory"]
+        demo[k] = json.dumps(e) + "\n"
+        dp = os.path.join(ck.workdir, "binding_demo.ndjson")
+        open(dp, "w").writelines(demo)
+        v = validate_trace(dp, os.path.join(ck.workdir, "tv_binding_demo"))
+        if not any(x.get("op") == "xs.dh" for x in v["bad"]):
+            raise ToolError("binding demonstration failed: a corrupted xs.dh event was accepted by TraceX")
+        ck.cov["binding_demo"] = "session of %d events with one flipped `contributory`: rejected at line %s" % (len(demo), v["bad"][0].get("line"))
     ck.add_sample_events(traces[0][1], 4)
     ck.assumptions += ["BigNat.class / Hash.class overrides", "TLC/SANY", "plain-Python ladder only produces the inputs of the iterated test"]
     return ck.finish(rule="toy: all 65 536 (k,u) byte pairs (curve, twist, small order, non-canonical), all Edwards points and both signs; full size: the seven "
